@@ -4,6 +4,7 @@ CONSTANTS
   W = 8
   MaxOps = 4
   MaxParOps = 3
+  MaxLadder = 6
   MaxUnOps = 2
   Seed = 0
   Tuples <- GenTuples
